@@ -165,28 +165,32 @@ theorem Reach.step {lim : Bool} {bud : Nat} {b : Block w} {env : Env} {c c1 : Cf
 
 /-! ### `unexposedN` -/
 
-theorem unexposed_step {lim : Bool} {d : Nat} {a : Int} {c c1 : Cfg w}
+theorem unexposed_stop {d : Nat} {c : Cfg w} (hne : ¬ (c.cur = [] ∧ c.conts.length ≤ d)) :
+    (c.cur.isEmpty && decide (c.conts.length ≤ d)) = false := by
+  cases hc : c.cur with
+  | nil =>
+    have : ¬ c.conts.length ≤ d := fun h' => hne ⟨hc, h'⟩
+    simp [this]
+  | cons _ _ => simp
+
+theorem unexposed_noread {lim : Bool} {d : Nat} {a : Int} {c : Cfg w}
+    (h : ∀ n, unexposedN lim d a n c = true) (hne : ¬ (c.cur = [] ∧ c.conts.length ≤ d)) :
+    a ∉ stepReads c := by
+  have := h 1
+  rw [unexposedN, unexposed_stop hne] at this
+  simp only [Bool.false_eq_true, if_false, Bool.and_eq_true, Bool.not_eq_true'] at this
+  simpa using this.1
+
+theorem unexposed_next {lim : Bool} {d : Nat} {a : Int} {c c1 : Cfg w}
     (h : ∀ n, unexposedN lim d a n c = true) (hne : ¬ (c.cur = [] ∧ c.conts.length ≤ d))
-    (hs : step lim c = .next c1) :
-    a ∉ stepReads c ∧ (a ∉ stepWrites c → ∀ n, unexposedN lim d a n c1 = true) := by
-  have hstop : (c.cur.isEmpty && decide (c.conts.length ≤ d)) = false := by
-    cases hc : c.cur with
-    | nil =>
-      have : ¬ c.conts.length ≤ d := fun h' => hne ⟨hc, h'⟩
-      simp [this]
-    | cons _ _ => simp
-  constructor
-  · have := h 1
-    rw [unexposedN, hstop] at this
-    simp only [Bool.false_eq_true, if_false, Bool.and_eq_true, Bool.not_eq_true'] at this
-    simpa using this.1
-  · intro hw n
-    have := h (n + 1)
-    rw [unexposedN, hstop, hs] at this
-    simp only [Bool.false_eq_true, if_false, Bool.and_eq_true, Bool.or_eq_true] at this
-    rcases this.2 with h' | h'
-    · exact absurd (by simpa using h') hw
-    · exact h'
+    (hs : step lim c = .next c1) (hw : a ∉ stepWrites c) : ∀ n, unexposedN lim d a n c1 = true := by
+  intro n
+  have := h (n + 1)
+  rw [unexposedN, unexposed_stop hne, hs] at this
+  simp only [Bool.false_eq_true, if_false, Bool.and_eq_true, Bool.or_eq_true] at this
+  rcases this.2 with h' | h'
+  · exact absurd (by simpa using h') hw
+  · exact h'
 
 /-! ### no pointer movement above depth `d` -/
 
